@@ -10,6 +10,7 @@ import QM.Proc
 import QM.InstallModel
 import QM.Fs
 import QM.Search
+import QM.Writer
 
 /-! Line protocol of the model driver: the same operations as `src/verif_driver.rs` (answered by the
     model of the implementation) plus `spec_*` operations (answered by the specifications, used as
@@ -173,6 +174,11 @@ def step (line : String) : String :=
       let tree := dirs.map (fun x => toDir (hexd x))
       let r := if mode == "root" then Srch.rootAdminDirs tree else Srch.rootlessAdminDirs true tree (hexd uid)
       "ok " ++ list (r.map fun d => d.flatMap ('/' :: ·))
+  | ["gen_write", fault, cap, sizes] =>
+      -- fault: none | create | <limit>; sizes: comma separated piece sizes
+      let chunks := if sizes.isEmpty then [] else (sizes.splitOn ",").map String.toNat!
+      let f : Wr.Fault := if fault == "none" then .none else if fault == "create" then .create else .sink fault.toNat!
+      "ok " ++ toString (Wr.writeOne cap.toNat! f { name := [], chunks := chunks })
   | ["plan_links", f, t] => match Parse.parse parseEnv (hexd t) with
       | .ok u => "ok " ++ list ((Inst.planLinks (hexd f) u).flatMap fun (l, t) => [l, t])
       | .error _ => "err Unit"
